@@ -589,6 +589,12 @@ def fam_norm(c):
                 _put(c, name, False)
         elif not has_def:
             raise AssertionError(f"{c.op}: no menu for required argument {name}: {ty}")
+    if base == "instance_norm" and (len(sh) < 3 or _numel(sh[2:]) <= 1) and _numel(sh) > 0:
+        raise explore.Prune()  # one element per instance: variance 0, the result is amplified rounding noise
+    if "batch_norm" in base and c.f.get("training") == "False" and (
+            "no_stats" in base or "None" in (c.f.get("running_mean"), c.f.get("running_var"))):
+        # evaluation mode without running statistics is undefined in torch (eager dereferences a null tensor)
+        raise explore.Prune()
     return c.case()
 
 
